@@ -207,3 +207,6 @@ def search(ctx, broken):
 
 def replay(ctx, payload):
     return {"fails": True, "note": "re-run: index and stream the stored FASTA/scaffolds with the stored buffer size", "input": payload.get("input")}
+
+
+LEVEL_NOTE = "; ".join(TRUSTED) + '. NEW (T1b): the chunk arithmetic of fwd_chunks / rev_chunks / get_gap_iter is translated from the current source and the tiling / bound theorems are restated on the translation (Properties/C13Source.lean)'
